@@ -52,9 +52,12 @@ def c02_stop(when: int, d: int, v: int, f1: int, p1: int, f2: int, p2: int) -> b
     with World() as w:
         k = w.kernel
         k.behaviour = BEHS[S.get('beh', 0)]
-        wa = w.mk_watcher('a', numprocesses=S.get('n0', 2), graceful_timeout=0.2)
+        var = S.get('var', 'default')
+        wa = w.mk_watcher('a', **scen.variant(var, numprocesses=S.get('n0', 2), graceful_timeout=0.2))
         wb = w.mk_watcher('b', numprocesses=1, graceful_timeout=0.2)
-        w.boot([wa, wb])
+        w.boot([wa, wb], check_delay=0.4 if var == 'max_age' else 1.0)
+        if var == 'max_age':
+            w.run_for(0.9)                  # the workers are about to expire: the next periodic checks will replace them
         started = set(p['pid'] for p in k.spawn_log if p['tag'] == 'a')
         sc = Sched(w)
         try:
@@ -63,6 +66,10 @@ def c02_stop(when: int, d: int, v: int, f1: int, p1: int, f2: int, p2: int) -> b
             if S.get('dmax', 0) > 0 and d > 0:
                 k.injections.append({'at_call': k.calls + d, 'victim': ('nth', v),
                                      'status': core.status_signal(9)})
+            if var == 'max_age' and when == 1:
+                w.run_for(0.5)              # periodic checks (max_age expiry) run while the kill request is in its grace period
+            if S.get('killfail') is not None:
+                k.kill_errors.add(k.kill_count + S['killfail'])     # one signal delivery of the stop sequence fails (EPERM)
             if req_kind == REQ_STOP:
                 req = w.send('stop', name='a', waiting=True, match='simple')
             elif req_kind == REQ_RESTART:
@@ -81,6 +88,12 @@ def c02_stop(when: int, d: int, v: int, f1: int, p1: int, f2: int, p2: int) -> b
             k.injections = [i for i in k.injections if i.get('done')]
             if w.clock.tripped:
                 return rt.skip()
+            if S.get('killfail') is not None and req_kind == REQ_STOP and req.status != 'ok':
+                # the first stop was cut short by the failing signal delivery: a second stop request has to finish the job
+                k.kill_errors.clear()
+                w.quiesce()
+                req = w.send('stop', name='a', waiting=True, match='simple')
+                w.run_until(lambda: bool(req.replies), max_time=60.0)
             if req_kind != REQ_QUIT and req.status != 'ok':
                 return rt.skip()            # refused (conflict): nothing is claimed
             started |= set(p['pid'] for p in k.spawn_log if p['tag'] == 'a' and p['t'] < req.t_sent)
@@ -217,10 +230,18 @@ def plan(tier):
     for beh in ((0,) if q else (0, 2)):
         sh.append({'req': REQ_STOP, 'n0': 1, 'beh': beh, 'K': 1 if q else 2, 'whenmax': 0})
     sh.append({'req': REQ_RM_NOSTOP, 'n0': 2, 'beh': 0, 'K': 0, 'whenmax': 0})
+    # configuration variants and a failing signal delivery
+    for req in (REQ_STOP, REQ_RESTART, REQ_QUIT):
+        sh.append({'req': req, 'n0': 2, 'beh': 2, 'K': 0, 'whenmax': 1, 'var': 'gt0'})
+        sh.append({'req': req, 'n0': 2, 'beh': 2, 'K': 0, 'whenmax': 1, 'var': 'max_age', 'dmax': 8})
+    for kf in (0, 1, 2):
+        sh.append({'req': REQ_STOP, 'n0': 2, 'beh': 0, 'K': 0, 'whenmax': 0, 'killfail': kf})
+        sh.append({'req': REQ_STOP, 'n0': 2, 'beh': 2, 'K': 0, 'whenmax': 0, 'killfail': kf})
     return [
         Cond('c02_stop', shards=sh, budget=150 if q else 1200, twins=3,
              bounds={'req': 'S{stop, restart, rm, quit, rm nostop (negative control)}', 'when': 'S{quiescent, kill request in flight}',
                      'd': 'R[0,dmax] kernel call of an injected SIGKILL death inside the stop sequence', 'v': 'S{0,1}',
                      'f1,f2': 'S: follow-up event from {check, incr, decr, set numprocesses, time, kill, signal, set args/env/working_dir/max_age}', 'p1,p2': 'R[-1,2]',
-                     'beh': 'S{obey, obey 0.15 s, ignore, obey 0.3 s (past timeout), mixed}', 'n0': 'S{1,2}'}),
+                     'beh': 'S{obey, obey 0.15 s, ignore, obey 0.3 s (past timeout), mixed}', 'var': 'S{default, graceful_timeout 0, max_age 1 s}',
+                     'killfail': 'S: the n-th signal delivery of the stop fails with EPERM, then the stop is requested again', 'n0': 'S{1,2}'}),
     ]
